@@ -350,6 +350,9 @@ def variant(draw, set_names, sets, regs, env, allow_specific=True, max_ops=3, sp
         if draw(st.integers(0, 2)) == 0:
             oc['operand_sets']['reverse_bytecode_order'] = True
         if nops >= 2 and draw(st.integers(0, 5)) == 0:
+            if draw(st.booleans()):
+                # the same set in both positions: a disallowed combination [p, q] leaves [q, p] allowed
+                oc['operand_sets']['list'][1] = oc['operand_sets']['list'][0]
             pair = [draw(st.sampled_from(sorted(sets[s]['operand_values']))) for s in oc['operand_sets']['list']]
             oc['operand_sets']['disallowed_pairs'] = [pair]
             if allow_specific and len(set(pair)) == len(pair) and draw(st.booleans()):
